@@ -42,6 +42,12 @@ def _run_once(c, scenarios, tag, timeout=3000, collect=None):
     mine = PROC_REASONS.get(c.pid, set())
     bad_runs = 0
     for k, r in enumerate(runs):
+        if r["scenario"].get("fd_exhaust_then_connect"):
+            # with its file descriptors exhausted the process cannot open the hook files of threads that emit for the first
+            # time afterwards (the signal thread): the hook logs of such a run are incomplete by construction and are not
+            # validated; the outside observations (exit status, promptness, panic output) are
+            for t in r["threads"]:
+                r["threads"][t] = []
         p = vlib.workfile(c.pid, "run_%s_%d.json" % (tag, k))
         with open(p, "w") as f:
             f.write(json.dumps({kk: v for kk, v in r.items() if kk not in ("scenario", "other_threads")}) + "\n")
@@ -176,6 +182,10 @@ def c19_scenarios(tier, seed):
     for k, (w, sig) in enumerate([(1, "TERM"), (2, "INT")] if tier == "quick" else [(1, "TERM"), (2, "INT"), (4, "TERM"), (1, "INT")]):
         out.append(scen(500 + k, num_workers=w, client_stats=True, status_interval=1, probe_socks=8, probe_rounds=1, load={"clients": 6, "requests": 4000},
                         signal={"sig": sig, "mode": "load_quiet", "delay_ms": 3500, "limit_ms": 5000}))
+    # resource fault: file descriptors exhausted when health-check connections arrive, then the signal
+    for k, (w, sig) in enumerate([(1, "TERM"), (4, "INT")]):
+        out.append(scen(600 + k, num_workers=w, health_check=True, probe_socks=8, probe_rounds=1, fd_exhaust_then_connect=3,
+                        signal={"sig": sig, "mode": "idle", "delay_ms": 200, "limit_ms": 5000}))
     return out
 
 
